@@ -1,10 +1,13 @@
-GO_PKG = "./provider/keystore"
-GO_PKGNAME = "keystore"
-HARNESS = ["keystore/c20_test.go"]
-GO_TEST = "TestVerifC20"
+# two runs: the model-backed run (plain keystore histories, gated resets) and the bounded-buffer run (reset buffer of 1-3
+# keys, Puts staged in pieces and waiting for room; judged by the property's final-state clause, Run_C20B.v)
+GO_RUNS = [
+    {"pkg": "./provider/keystore", "pkgname": "keystore", "test": "TestVerifC20", "share": 0.75, "harness": ["keystore/c20_test.go"]},
+    {"pkg": "./provider/keystore", "pkgname": "keystore", "test": "TestVerifC20B", "share": 0.25,
+     "harness": ["keystore/c20_test.go", "keystore/c20b_test.go"]},
+]
 RUN_MODULE = "Run_C20"
-COQ_TARGETS = ["Corr/Run_C20.vo", "Proofs/KeystoreProofs.vo", "Proofs/ResetKeystoreProofs.vo"]
-N = {"quick": 300, "thorough": 9000}
+COQ_TARGETS = ["Corr/Run_C20.vo", "Corr/Run_C20B.vo", "Proofs/KeystoreProofs.vo", "Proofs/ResetKeystoreProofs.vo"]
+N = {"quick": 400, "thorough": 12000}
 RULE = ("two kinds of cases. plain (2 of 3): random histories of 3-60 operations on the real keystore over a recording, "
         "fault-injecting datastore: put/delete (1-6 keys, 4% with a repeated key)/empty, each with a 12% chance of one failing "
         "Has/Commit/Sync, get/count/contains with prefixes of 0-16 bits around clustered keys or (one in eight) the complete 256-bit identifier of a pool key (prefixBits 0/8/16, batch size 1-5 or 64), "
